@@ -132,9 +132,14 @@ def rule_flow_bijections(prog, rep, prefix):
     _add_default_permute): the point of X_and_log_det equals X, and the inverse pair is the mirror of
     the forward pair - otherwise the two evaluation paths of a flow use different maps."""
     from . import c01
-    cs = [prog.cls(q) for q in FLOW_WRAPPERS]
-    c01.rule_value(prog, rep, cs, R=f"{prefix}.flow-value", minimum=6)
-    c01.rule_mirror(prog, rep, cs, RM=f"{prefix}.flow-mirror", RD=f"{prefix}.flow-direction", minimum=6)
+    from .bij import bijection_classes
+    for q in FLOW_WRAPPERS:
+        prog.cls(q)  # anchors: must exist
+    # every layer a factory can place on the data path (the sampling path runs transform / transform_and_log_det,
+    # the density path inverse_and_log_det: they must be one and the same map)
+    cs = bijection_classes(prog)
+    c01.rule_value(prog, rep, cs, R=f"{prefix}.flow-value", minimum=55)
+    c01.rule_mirror(prog, rep, cs, RM=f"{prefix}.flow-mirror", RD=f"{prefix}.flow-direction", minimum=20)
 
 
 def rule_numpyro(prog, rep):
